@@ -333,6 +333,15 @@ def rule_sep(ctx: Ctx) -> RuleReport:
 
 # ------------------------------------------------------------------------------------------------ ROUTE
 
+def cnt_if_test(fn_node, cnt):
+    """The test of the innermost `if` whose branch holds the statement."""
+    best = None
+    for i in ast.walk(fn_node):
+        if isinstance(i, ast.If) and (cnt in i.body or cnt in i.orelse):
+            best = i
+    return best.test if best is not None else None
+
+
 def rule_route(ctx: Ctx) -> RuleReport:
     rep = RuleReport("C16-ROUTE", "supported attachments are routed by name, then by MIME type; each in isolation; streams rewound")
     fi = ctx.p.maybe_func(DT, "EmailContent.iterate_supported_attachments")
@@ -366,6 +375,14 @@ def rule_route(ctx: Ctx) -> RuleReport:
                 cs = sorted({str(c) for c in conds} | set(opaque))
                 by_name = [c for c in cs if f"{LV}.filename" in c]
                 by_mime = [c for c in cs if "mime_type" in c]
+                # the name-based part of the decision is the router's own answer, not a second implementation of it (case folding,
+                # compound extensions and aliases would have to be repeated exactly)
+                ROUTER = "sharepoint2text/parsing/router.py"
+                router_calls = [c for c in ast.walk(cnt_if_test(fi.node, cnt)) if isinstance(c, ast.Call) and any(g.module.rel == ROUTER for g in resolve_call(ctx.p, fi, c).funcs)] if cnt_if_test(fi.node, cnt) is not None else []
+                if by_name and not router_calls:
+                    rep.fail(Finding("C16-ROUTE", DT, fi.qual, "attachment support decided by a private test on the name: " + " and ".join(anorm(ast.parse(c, mode="eval").body, fi.node) for c in by_name)[:120],
+                                     f"an attachment is skipped under `{' and '.join(by_name)}`: the file name is judged by a test of its own instead of the router (is_supported_file / get_extractor), so names the router accepts ('TABLE.CSV', 'Report.HTM', 'data.tar.gz') can be skipped -- attachment dispatch no longer uses the same routing as read_file", line=cnt.lineno))
+                    continue
                 if by_mime and not by_name:
                     rep.fail(Finding("C16-ROUTE", DT, fi.qual, "skipped on MIME type alone: " + " and ".join(anorm(ast.parse(c, mode="eval").body, fi.node) for c in cs),
                                      f"an attachment is skipped under `{' and '.join(cs)}` before its file name is looked at: report.docx sent as application/octet-stream (what many clients and gateways send) is never extracted, although read_file routes the same bytes by name", line=cnt.lineno))
